@@ -314,3 +314,19 @@ package main
 //@   requires route != nil && litDefaults(route)
 //@   assertat "queryObj := make(map[string]vm.Value, len(queryParams))" forall(k, 0, len(route.QueryParams), route.QueryParams[k].Default != nil ==> has(queryParams, route.QueryParams[k].Name))
 //@   loop 2 invariant queryParams != nil && 0 <= rangeidx && forall(k, 0, rangeidx, route.QueryParams[k].Default != nil ==> has(queryParams, route.QueryParams[k].Name))
+
+// ---- request variables of compiled routes (C02): every name CompileRoute pre-defines for a route as a request variable -
+// ---- query, headers, input, and auth when the route declares auth - is bound in the VM's locals before the bytecode runs
+// ---- (a name the compiler resolves and the handler does not bind fails at run time: 500 where the interpreter answers)
+//@ func (*vm.VM).SetLocal
+//@   requires vm != nil && vm.locals != nil
+//@   modifies mapof(vm.locals)
+//@   ensures has(vm.locals, name) && forall(k, string, old(has(vm.locals, k)) ==> has(vm.locals, k))
+//@ func createCompiledRouteHandler$1
+//@   loop 4 invariant vmInstance.locals != nil && has(vmInstance.locals, "query")
+//@   loop 5 invariant vmInstance.locals != nil && has(vmInstance.locals, "query") && has(vmInstance.locals, "input") && (route.Auth != nil ==> has(vmInstance.locals, "auth"))
+//@   callpre (*vm.VM).Execute has(arg0.locals, "query") && has(arg0.locals, "headers") && has(arg0.locals, "input") && (route.Auth != nil ==> has(arg0.locals, "auth"))
+// (conversion of decoded JSON into VM values: builds new arrays and objects, writes nothing that existed)
+//@ func interfaceToValue
+//@   modifies nothing
+//@   ensures result != nil
